@@ -29,7 +29,7 @@ def collide(g, form):
     if not named:
         return "none"
     kind = g.pick(["helper_count", "helper_other", "meta", "dup_sibling", "dup_case", "dup_elsewhere", "section_twice",
-                   "form_name", "instanceID", "dup_cross_section", "dup_line_feed", "path_attribute"])
+                   "form_name", "instanceID", "dup_cross_section", "dup_line_feed", "path_attribute", "path_attribute", "flat_column"])
     n, anc = g.pick(named)
     reps = [x for x, _ in named if x["k"] == "r"]
     qs = [x for x, _ in named if x["k"] == "q"]
@@ -59,9 +59,20 @@ def collide(g, form):
     elif kind == "path_attribute":
         # a column that would set the generated path itself: refused, or at least never two binds / controls on one node
         other, _ = g.pick(named)
-        if other is not n and n["k"] == "q":
+        if other is not n:
             root = form.get("settings", {}).get("name", form.get("args", {}).get("form_name", "data"))
-            n["c"][g.pick(["bind::nodeset", "body::ref", "body::nodeset"])] = g.pick([f"/{root}/{other['c']['name']}", f"/{root}/gone"])
+            n["c"][g.pick(["bind::nodeset", "body::ref", "body::nodeset", "action::ref"])] = g.pick([f"/{root}/{other['c']['name']}", f"/{root}/gone"])
+            if g.p("_", 0.3):
+                form["nodes"].append({"k": "q", "c": {"type": g.pick(["background-audio", "start-geopoint"]), "name": "bgact",
+                                                      "action::ref": f"/{root}/gone"}})
+    elif kind == "flat_column":
+        # a survey column that happens to be called like the internal annotation of the flat setting
+        for x in secs:
+            if g.p("_", 0.6):
+                x["c"]["flat"] = g.pick(["yes", "true", "1"])
+        inner = [x for x, a in named if x["k"] == "q" and a]
+        if inner and g.p("_", 0.7):
+            form["nodes"].append({"k": "q", "c": {"type": "text", "name": g.pick(inner)["c"]["name"], "label": "same name at the top"}})
     elif kind == "dup_line_feed":
         # cells kept as typed (documented clean_text_values=no): a name followed by a line feed is written as the same XML name
         other, _ = g.pick(named)
